@@ -1486,6 +1486,17 @@ def rule_r12(prog, res):
                         'number)' % (r.exc, r.why[:60]))
 
 
+# ------------------------------------------------------------------ R13
+def rule_r13(prog, res):
+    from . import c09, c12
+    from ..report import Result
+    res.share('R13', 'fault serialisation cannot raise on plain fault codes: '
+              'handle_error serialises before start_response (C09-R13)',
+              'C09', c09.rule_r13, prog, Result)
+    res.share('R13', 'response headers and status are per-request state '
+              '(C12-R5)', 'C12', c12.rule_r5, prog, Result)
+
+
 def run(prog, res, tier):
     res.run_rule(rule_r1, prog, res)
     res.run_rule(rule_r2, prog, res)
@@ -1499,6 +1510,7 @@ def run(prog, res, tier):
     res.run_rule(rule_r10, prog, res)
     res.run_rule(rule_r11, prog, res)
     res.run_rule(rule_r12, prog, res)
+    res.run_rule(rule_r13, prog, res)
 
 
 _W = 'spyne/server/wsgi.py'
